@@ -157,24 +157,33 @@ func e1Compare(sc *e1Scenario, h *hist.Hist, col *evid.Collector, mode, ref stri
 		col.Violation(prop+":unverified-propagation-entry:ref-protected", desc+" (a propagation entry for the reference is never verified)", rp)
 	case err == nil && !lenient.OK && prop == "C11" && strings.Contains(lenient.Reason, "delegation-rules-unmet") && h.A.PolicyInForceAt(lenient.At) != nil && len(h.A.PolicyInForceAt(lenient.At).Global) > 0:
 		col.Violation("C11:global-rule-weakens:delegation-rules-bypassed-when-any-global-rule-exists", desc+" (the policy in force declares a global rule; the unmet delegation rule is never consulted)", rp)
+	case err == nil && !lenient.OK && e1EarlierTagEntrySamePolicy(h, lenient.At) && strings.Contains(lenient.Reason, "delegation-rules-unmet"):
+		col.Violation(prop+":tag-entry-accepted-below-threshold-after-an-earlier-entry-for-the-tag-under-the-same-policy-state", desc+" (verifying the first tag entry lowers the threshold of the policy state's memoised verifier to 1)", rp)
 	case err == nil && !lenient.OK:
 		col.Violation(fmt.Sprintf("%s:false-accept:%s:%s", prop, mode, strings.SplitN(lenient.Reason, ":", 2)[0]), desc, rp)
 	case err != nil && lenient.OK && strict.OK && h.A.AllPoliciesValid():
 		col.Violation(fmt.Sprintf("%s:false-reject:%s:%s", prop, mode, ec), desc+" ("+err.Error()+")", rp)
 	case err == nil && !tip.Equal(wantTip):
 		col.Violation(prop+":wrong-tip:"+mode, desc+fmt.Sprintf(" tip=%s want=%s", tip, wantTip), rp)
-	case err != nil && !strict.OK && h.A.AllPoliciesValid():
-		// both reject: where a property names the error, compare its class
-		// (only when no broken policy state gives a second legitimate reason
-		// to reject)
-		reason := strings.SplitN(strict.Reason, ":", 2)[0]
-		switch reason {
-		case "violation", "violation-not-repaired", "invalid-entry-not-skipped":
-			if ec != "verification-failed" && ec != "invalid-entry-not-skipped" && ec != "last-good-entry-skipped" {
-				col.Violation(fmt.Sprintf("%s:wrong-error-class:%s:%s-reported-as-%s", prop, mode, reason, ec), desc+" ("+err.Error()+")", rp)
-			}
+	}
+}
+
+// e1EarlierTagEntrySamePolicy: entry at is a tag entry and an earlier entry
+// for the same tag was judged under the same policy state.
+func e1EarlierTagEntrySamePolicy(h *hist.Hist, at int) bool {
+	if at < 0 || at >= len(h.A.Entries) || !h.A.Entries[at].IsTag {
+		return false
+	}
+	for j := at - 1; j >= 0; j-- {
+		e := h.A.Entries[j]
+		if e.Kind == refver.PolicyEntry {
+			return false
+		}
+		if e.Kind == refver.Push && e.IsTag && e.Ref == h.A.Entries[at].Ref {
+			return true
 		}
 	}
+	return false
 }
 
 // e1Explore runs the DFS of one scenario, sharded on the first two events.
